@@ -53,3 +53,24 @@ register('C01', 'other',
                       'per-instance contracts; FIFO per sender',
                       'structural validity of the per-instance maps (valid_structure / distinct_entries, contracts/c07.py)',
                       'call sites of check_master come after _OnState._check_consistence (local instance seen RUNNING)'])
+register('C13', 'proof',
+         'Non-interference clauses proved per handler on the real source: Context.is_valid never returns an ISOLATED status, '
+         'returns None for an unknown or ambiguous origin and only the status of the claimed origin; on_authorization '
+         'ignores stale / duplicated results (is_checking: CHECKING and timestamp later than the entry in CHECKING), marks '
+         'ISOLATED a peer answering NOT_AUTHORIZED / INCONSISTENT / an unknown code (STOPPED for the local instance), '
+         'admits (CHECKED) only on AUTHORIZED, goes back to STOPPED on UNKNOWN, and leaves an ISOLATED status ISOLATED; '
+         'on_identification_event changes no instance state and has no effect outside the CHECKING window; '
+         'Context.invalidate(fence=True) => ISOLATED unless local. Permanence: C07 (empty ISOLATED row, single writer, '
+         'state setter contract).',
+         not_decided=['reciprocity as a two-party fact (needs the real answer of the remote instance)',
+                      'claimed origin vs real sender (transport)',
+                      'listener.read_publication / read_notification (json decoding), SupervisorProxyServer.get_proxy / '
+                      'push_* (threads, locks) and SupervisorProxy._is_authorized (XML-RPC) are not under contract in this '
+                      'round: the frame "invalid origin => nothing modified, nothing emitted" is proved at the level of '
+                      'Context.is_valid only',
+                      'process state / removal / disability events only from CHECKED or RUNNING peers: C12'],
+         assumptions=['SupvisorsInstanceId.is_valid (address match) is an external predicate',
+                      'SupvisorsMapper.filter resolves identifier lists as documented (assumed contract); mapper closure '
+                      '(nick identifiers and stereotypes name known instances)',
+                      'structural validity of the per-instance maps (valid_structure / distinct_entries, contracts/c07.py)',
+                      'XML-RPC answers of the remote are what its RPCInterface returns'])
